@@ -55,7 +55,12 @@ def remap_curie_prefixes(converter: Converter, remapping: Mapping[str, str]) -> 
     """
     converter = _copy(converter)
     ordering = _order_curie_remapping(converter, remapping)
-    intersection = set(remapping).intersection(remapping.values())
+    # old prefixes that get taken over by another record via a transitive remapping
+    handed_over = {
+        new_prefix
+        for old, new_prefix in remapping.items()
+        if new_prefix in remapping and old in converter.synonym_to_prefix
+    }
     records = {r.prefix: r for r in converter.records}
 
     modified_records = []
@@ -79,9 +84,9 @@ def remap_curie_prefixes(converter: Converter, remapping: Mapping[str, str]) -> 
                 new_prefix,
                 new_record,
             )
-        elif old in intersection:
+        elif old in handed_over:
             record.prefix_synonyms = sorted(
-                set(record.prefix_synonyms).difference({old, new_prefix})
+                set(record.prefix_synonyms).union({record.prefix}).difference({old, new_prefix})
             )
             record.prefix = new_prefix
         else:
